@@ -281,8 +281,10 @@ def r5_uniqueness_nulls(ctx):
         if f is None:
             raise AnalysisError(f"{q}.{name} missing")
         ctx.touched(f)
-        dup = [c for c in calls_in(f.node, nested=True) if callee_last(c) in ("duplicated", "is_duplicated", "is_unique", "unique", "n_unique")]
-        nulls = [c for c in calls_in(f.node, nested=True) if callee_last(c) in NULL_OPS]
+        from ..util import same_module_helpers
+        fam = same_module_helpers(ix, f)
+        dup = [c for g in fam for c in calls_in(g.node, nested=True) if callee_last(c) in ("duplicated", "is_duplicated", "is_unique", "unique", "n_unique")]
+        nulls = [c for g in fam for c in calls_in(g.node, nested=True) if callee_last(c) in NULL_OPS]
         flavour = "polars" if "/polars/" in q else "pandas"
         ctx.ob("R5", f, f"{flavour} {name}: duplicates are detected on the unfiltered values (nulls count as equal)", bool(dup) and not nulls,
                f"{[callee_last(c) for c in dup]} on the column as is" if dup and not nulls else
